@@ -22,7 +22,8 @@ import re
 import z3
 
 from symcore import E, Inconclusive
-from pyfront import SymInt, SymBool, SymStr, SymBytes, DigitStr, SymText, has_placeholder, text_items
+from pyfront import (SymInt, SymBool, SymStr, SymBytes, DigitStr, SymText, has_placeholder, text_items,
+                     TOKEN_OPEN, TOKEN_CLOSE)
 
 _NAME = re.compile(r'[A-Za-z_][A-Za-z0-9_.\-]*\Z')
 
@@ -244,10 +245,27 @@ def _parsed_text(t, cr_escaped, where):
         return t if len(t) > 0 else None     # digits / arcs: no CR, no markup
     if isinstance(t, str):
         if has_placeholder(t):
-            for it in text_items(t):
+            out = []
+            raw = list(t)
+            i = 0
+            while i < len(raw):
+                ch = raw[i]
+                it = text_items(ch)[0] if has_placeholder(ch) and ch not in (TOKEN_OPEN, TOKEN_CLOSE) else ch
                 if not isinstance(it, str) and it[0] == 'chr':
-                    raise Inconclusive('formatted text with symbolic characters as element text')
-            return t
+                    c = it[1]
+                    if E().branch(z3.Not(xml_char_cond(c))):
+                        raise NotWellFormed('%s: a character of the value is not an XML Char' % where)
+                    if not cr_escaped and E().branch(c == 0x0D):
+                        nxt = raw[i + 1] if i + 1 < len(raw) else None
+                        nit = text_items(nxt)[0] if nxt is not None and has_placeholder(nxt) and nxt not in (TOKEN_OPEN, TOKEN_CLOSE) else nxt
+                        is_lf = (nit == '\n') if isinstance(nit, str) or nit is None else (nit[0] == 'chr' and E().branch(nit[1] == 0x0A))
+                        if not is_lf:
+                            out.append('\n')
+                        i += 1
+                        continue
+                out.append(ch)
+                i += 1
+            return ''.join(out) or None
         for ch in t:
             if not _xml_char_ok(ch):
                 raise NotWellFormed('%s: character U+%04X is not an XML Char' % (where, ord(ch)))
